@@ -49,6 +49,12 @@ func (c *compiler) module(y *Module) error {
 			return err
 		}
 	}
+	// RFC7950 Sec 7.18.2 "an identity MUST NOT reference itself, neither directly nor indirectly"
+	for _, i := range identitiesInOrder(y.identities) {
+		if baseLeadsTo(i, i, make(map[*Identity]bool)) {
+			return errors.New(SchemaPath(i) + " - identity is derived from itself")
+		}
+	}
 
 	for _, r := range y.rev {
 		if err := c.compile(r); err != nil {
@@ -63,6 +69,22 @@ func (c *compiler) module(y *Module) error {
 	}
 
 	return c.compile(y)
+}
+
+// baseLeadsTo is true when target is among the bases of from, or the bases of those
+func baseLeadsTo(from *Identity, target *Identity, seen map[*Identity]bool) bool {
+	for _, b := range from.base {
+		if b == target {
+			return true
+		}
+		if !seen[b] {
+			seen[b] = true
+			if baseLeadsTo(b, target, seen) {
+				return true
+			}
+		}
+	}
+	return false
 }
 
 // identitiesInOrder hands out the identities by name, so that every load of a module links
